@@ -27,6 +27,7 @@ class SlidingWindowTracker(Tracker):
         else:
             self.window_k = 0
             self.sliding_window[self.window_k] = value_i
+            self.window_k += 1
         return self
 
     def __call__(self, *args, **kwargs):
